@@ -8,6 +8,10 @@ NAMES = [b"http", b"http0", b"http00", b"http1", b"x", b"x0", b"x1", b"", b"0", 
 PATHS = [b"a/http", b"b/http", b"c/http0", b"d/http", b"e/x", b"f/x", b"dst/pkg", b"net/http", b"z", b"", b"a/http/v2",
          b"A/http", b"a/\xc3\xa9"]
 DSTS = [b"dst/pkg", b"a/http", b"other"]
+# path pairs that a normalising refactoring could confuse: vendor form vs plain form, case, trailing slash, prefixes
+LOOKALIKE = [(b"github.com/foo/bar", b"example.com/app/vendor/github.com/foo/bar"), (b"x/y", b"vendor/x/y"),
+             (b"a/http", b"a/http/"), (b"a/http", b"./a/http"), (b"e/x", b"E/x"), (b"net/http", b"net/http/httptest"),
+             (b"k8s.io/api/core/v1", b"k8s.io/api/apps/v1"), (b"a/b", b"a/b/internal/b")]
 
 
 def gen_case(rng, big=False):
@@ -19,6 +23,11 @@ def gen_case(rng, big=False):
     dst = rng.choice(DSTS)
     if rng.random() < 0.5 and dst not in paths:
         paths.append(dst)
+    if rng.random() < 0.4:
+        for q in rng.choice(LOOKALIKE):
+            if q not in paths:
+                paths.append(q)
+        names = names + [b"bar", b"v1", b"y", b"b"][: rng.randint(1, 3)]
     ops = []
     # prelude: imports as mockery itself adds them before a method scope exists
     for _ in range(rng.randint(0, 5)):
@@ -207,7 +216,7 @@ def probe_template(target_iface, target_method, ops, ex_names):
 def gen_probe_history(rng, dst, inpkg):
     pre = rng.sample([p for p in PREFIXES if p], rng.randint(1, 3)) + rng.sample([b"http", b"ctx", b"s", b"err", b"mock", b"string", b"h1", b"context"], 2)
     names = rng.sample(NAMES, rng.randint(2, 4)) + [b"http", b"context"]
-    paths = rng.sample([p for p in PATHS if p], rng.randint(2, 5)) + [b"example.com/m/ext/http", b"context", b"fresh/ctx", dst]
+    paths = rng.sample([p for p in PATHS if p], rng.randint(2, 5)) + [b"example.com/m/ext/http", b"context", b"fresh/ctx", dst] + list(rng.choice(LOOKALIKE))
     ops, added = [], set()
     for _ in range(rng.randint(8, 40)):
         k = rng.choice(["AllocateName"] * 4 + ["SuggestName"] * 2 + ["NameExists"] * 2 + ["AddImport"] * 4 + ["Imports", "PkgQualifier"])
